@@ -1,6 +1,6 @@
 (* C17 -- one test of a run, runs, the command line runner, sessions *)
 From Coq Require Import NArith Arith Bool List Lia.
-From CppUVerif Require Import gen.Gen_Common C17_Model C17_Proofs C17_Chain.
+From CppUVerif Require Import gen.Gen_Common C17_Model C17_Proofs C17_Links C17_Chain.
 Import ListNotations.
 
 (* ================================================================= small facts *)
@@ -240,18 +240,21 @@ Proof.
 Qed.
 
 (* ================================================================= the tests of a valid run *)
-Definition good (st : state) : Prop := wf (s_reg st) /\ s_tbl st = [].
+(* well-formed registry, empty table, and the links as the code holds them are the chain *)
+Definition good (st : state) : Prop := wf (s_reg st) /\ s_tbl st = [] /\ linked (s_reg st).
 
 Lemma run_tests_ok ts : forall st r', good st -> valid_tests (s_reg st) ts = Some r' ->
   s_reg (fst (run_tests st ts)) = r' /\ good (fst (run_tests st ts)) /\
   forall obs, spec_tests (s_reg st) (s_mem st) ts (snd (run_tests st ts) ++ obs) = Some (r', s_mem (fst (run_tests st ts)), obs).
 Proof.
-  induction ts as [|t ts IH]; intros st r' [Hw Ht] Hv; cbn [valid_tests run_tests spec_tests] in *.
-  - cbn [fst snd app]. inversion Hv; subst. split; [reflexivity|]. split; [split; assumption|]. intro obs. reflexivity.
-  - destruct (xtest_ok (r_chain (s_reg st)) t) eqn:Hok; [|discriminate Hv].
+  induction ts as [|t ts IH]; intros st r' [Hw [Ht Hl]] Hv; cbn [valid_tests run_tests spec_tests] in *.
+  - cbn [fst snd app]. inversion Hv; subst. split; [reflexivity|]. split; [split; [|split]; assumption|]. intro obs. reflexivity.
+  - destruct (xtest_ok (r_chain (s_reg st)) t) eqn:Hok; [|discriminate Hv]. cbn [andb] in Hv.
+    destruct (acts_ok (s_reg st) (test_acts (r_chain (s_reg st)) t)) eqn:Hao; [|discriminate Hv].
     pose proof (run_xtest_ok st t Hw Ht Hok) as R. unfold s_chain in R. destruct R as [R1 [R2 [R3 R4]]].
     destruct (run_xtest st t) as [st1 it]. cbn [fst snd] in *.
-    assert (Hg1 : good st1). { split; [rewrite R1; apply (wf_acts _ (s_reg st, [])); exact Hw|exact R2]. }
+    assert (Hg1 : good st1).
+    { split; [rewrite R1; apply (wf_acts _ (s_reg st, [])); exact Hw|]. split; [exact R2|]. rewrite R1. apply linked_acts; assumption. }
     rewrite <- R1 in Hv. destruct (IH st1 r' Hg1 Hv) as [I1 [I2 I3]].
     destruct (run_tests st1 ts) as [st2 its]. cbn [fst snd app] in *.
     split; [exact I1|]. split; [exact I2|]. intro obs. subst it.
@@ -260,20 +263,23 @@ Proof.
 Qed.
 
 (* ================================================================= sessions *)
-Lemma good_do_act st a : good st -> good (do_act st a) /\ s_reg (do_act st a) = reg_act without (s_reg st) a /\ s_mem (do_act st a) = s_mem st.
+Lemma good_do_act st a : good st -> act_ok (s_reg st) a = true ->
+  good (do_act st a) /\ s_reg (do_act st a) = reg_act without (s_reg st) a /\ s_mem (do_act st a) = s_mem st.
 Proof.
-  intros [Hw Ht]. split; [split|split].
+  intros [Hw [Ht Hl]] Hok. split; [split; [|split]|split].
   - cbn [do_act s_reg]. rewrite reg_act_without. apply wf_act. exact Hw.
   - cbn [do_act s_tbl]. rewrite Ht. destruct (installs_sp a); reflexivity.
+  - cbn [do_act s_reg]. rewrite reg_act_without. apply linked_act; assumption.
   - cbn [do_act s_reg]. apply reg_act_without.
   - reflexivity.
 Qed.
 
 Lemma good_install st p : good st -> p_id p = s_next st -> (is_sp p = false \/ True) -> good (install st p).
 Proof.
-  intros [Hw Ht] Hid _. split; cbn [install s_reg s_tbl].
+  intros [Hw [Ht Hl]] Hid _. split; [|split]; cbn [install s_reg s_tbl].
   - apply wf_install; assumption.
   - rewrite Ht. destruct (is_sp p); reflexivity.
+  - apply linked_install; assumption.
 Qed.
 
 Lemma step_ok st o rest : good st -> valid_from (s_reg st) (o :: rest) = true ->
@@ -281,15 +287,21 @@ Lemma step_ok st o rest : good st -> valid_from (s_reg st) (o :: rest) = true ->
   forall obs, spec_from (s_reg st) (s_mem st) (o :: rest) (snd (step st o) ++ obs) =
               spec_from (s_reg (fst (step st o))) (s_mem (fst (step st o))) rest obs.
 Proof.
-  intros Hg Hv. destruct o as [n k|n post acts|id|id|n| |t|ts|rep ts]; cbn [valid_from spec_from step fst snd app] in *.
-  - destruct (good_do_act st (AInstall n k) Hg) as [G [R M]]. rewrite R, M. split; [exact G|]. split; [exact Hv|]. intro obs. reflexivity.
+  assert (Hread : forall st', good st' -> read_chain (s_reg st') = map p_id (r_chain (s_reg st'))).
+  { intros st' [Hw' [_ Hl']]. apply read_linked; assumption. }
+  intros Hg Hv. destruct o as [n k|n post acts|id|id|n| |id|t|ts|rep ts]; cbn [valid_from spec_from step fst snd app] in *.
+  - destruct (good_do_act st (AInstall n k) Hg eq_refl) as [G [R M]]. rewrite R, M. split; [exact G|]. split; [exact Hv|]. intro obs. reflexivity.
   - assert (G : good (install st (mkp (s_next st) n KPlain (RActor post acts)))) by (apply good_install; [exact Hg|reflexivity|left; reflexivity]).
     split; [exact G|]. split; [exact Hv|]. intro obs. reflexivity.
-  - destruct (good_do_act st (AEnable id) Hg) as [G [R M]]. rewrite R, M. split; [exact G|]. split; [exact Hv|]. intro obs. reflexivity.
-  - destruct (good_do_act st (ADisable id) Hg) as [G [R M]]. rewrite R, M. split; [exact G|]. split; [exact Hv|]. intro obs. reflexivity.
-  - destruct (good_do_act st (ARemove n) Hg) as [G [R M]]. unfold s_chain. rewrite R, M. split; [exact G|]. split; [exact Hv|].
-    intro obs. cbn [reg_act reg_chain r_chain]. rewrite nat_list_eqb_refl. reflexivity.
-  - destruct (good_do_act st AReset Hg) as [G [R M]]. rewrite R, M. split; [exact G|]. split; [exact Hv|]. intro obs. reflexivity.
+  - destruct (good_do_act st (AEnable id) Hg eq_refl) as [G [R M]]. rewrite R, M. split; [exact G|]. split; [exact Hv|]. intro obs. reflexivity.
+  - destruct (good_do_act st (ADisable id) Hg eq_refl) as [G [R M]]. rewrite R, M. split; [exact G|]. split; [exact Hv|]. intro obs. reflexivity.
+  - destruct (good_do_act st (ARemove n) Hg eq_refl) as [G [R M]]. rewrite (Hread _ G), R, M. split; [exact G|]. split; [exact Hv|].
+    intro obs. cbn [reg_act reg_set r_chain]. rewrite nat_list_eqb_refl. reflexivity.
+  - destruct (good_do_act st AReset Hg eq_refl) as [G [R M]]. rewrite (Hread _ G), R, M. split; [exact G|]. split; [exact Hv|]. intro obs. reflexivity.
+  - apply andb_true_iff in Hv. destruct Hv as [Hok Hv].
+    destruct (good_do_act st (AReinstall id) Hg Hok) as [G [R M]]. rewrite (Hread _ G), R, M. split; [exact G|]. split; [exact Hv|].
+    intro obs. unfold reinst_ok in Hok. cbn [reg_act]. destruct (find_id id (r_out (s_reg st))) as [p|] eqn:Ef; [|discriminate Hok].
+    destruct (find_id_some _ _ _ Ef) as [_ Eid]. cbn [reg_set r_chain map]. rewrite Eid, nat_list_eqb_refl. reflexivity.
   - destruct (valid_tests (s_reg st) [t]) as [r'|] eqn:Hvt; [|discriminate Hv].
     destruct (run_tests_ok [t] st r' Hg Hvt) as [R1 [R2 R3]]. cbn [run_tests] in R1, R2, R3.
     destruct (run_xtest st t) as [st1 it]. cbn [fst snd app] in *.
@@ -298,7 +310,7 @@ Proof.
     destruct (run_tests_ok ts st r' Hg Hvt) as [R1 [R2 R3]].
     destruct (run_tests st ts) as [st1 its]. cbn [fst snd] in *.
     split; [exact R2|]. split; [rewrite R1; exact Hv|]. intro obs. rewrite <- app_assoc, (R3 _). cbn [app].
-    unfold s_chain. rewrite R1, nat_list_eqb_refl. reflexivity.
+    rewrite (Hread _ R2), R1, nat_list_eqb_refl. reflexivity.
   - apply andb_true_iff in Hv. destruct Hv as [_ Hv].
     set (st0 := install st (runner_plugin (s_next st))) in *.
     assert (G0 : good st0) by (apply good_install; [exact Hg|reflexivity|right; exact I]).
@@ -307,10 +319,10 @@ Proof.
     apply andb_true_iff in Hv. destruct Hv as [_ Hv].
     destruct (run_tests_ok (reps rep ts) st0 r' G0 Hvt) as [R1 [R2 R3]].
     destruct (run_tests st0 (reps rep ts)) as [st1 its]. cbn [fst snd] in *.
-    destruct (good_do_act st1 (ARemove runner_name) R2) as [G [R M]].
+    destruct (good_do_act st1 (ARemove runner_name) R2 eq_refl) as [G [R M]].
     split; [exact G|]. split; [rewrite R, R1; exact Hv|]. intro obs. rewrite <- app_assoc.
     change (s_mem st) with (s_mem st0). rewrite (R3 _). cbn [app].
-    unfold s_chain. rewrite R, M, R1. cbn [reg_act reg_chain r_chain]. rewrite nat_list_eqb_refl. reflexivity.
+    rewrite (Hread _ G), R, M, R1. cbn [reg_act reg_set r_chain]. rewrite nat_list_eqb_refl. reflexivity.
 Qed.
 
 Lemma run_meets_spec_from ops : forall st, good st -> valid_from (s_reg st) ops = true ->
@@ -321,7 +333,7 @@ Proof.
 Qed.
 
 Lemma good_init : good init_state.
-Proof. split; [exact wf_init|reflexivity]. Qed.
+Proof. split; [exact wf_init|split; [reflexivity|exact linked_init]]. Qed.
 
 Lemma run_meets_spec s : valid s = true -> spec s (run s) = true.
 Proof. intro H. apply (run_meets_spec_from s init_state good_init H). Qed.
@@ -337,16 +349,28 @@ Qed.
 Lemma table_empty_between s1 s2 : valid (s1 ++ s2) = true -> s_tbl (exec_ops init_state s1) = [].
 Proof. intro H. apply (good_prefix s1 init_state s2 good_init H). Qed.
 
+(* ... the chain holds every object once, and the links as the code holds them are that chain *)
+Lemma session_linked s1 s2 : valid (s1 ++ s2) = true ->
+  NoDup (map p_id (s_chain (exec_ops init_state s1))) /\ linked (s_reg (exec_ops init_state s1)) /\
+  read_chain (s_reg (exec_ops init_state s1)) = map p_id (s_chain (exec_ops init_state s1)).
+Proof.
+  intro H. destruct (good_prefix s1 init_state s2 good_init H) as [[Hw [_ Hl]] _].
+  split; [apply wf_nodup; exact Hw|]. split; [exact Hl|apply read_linked; assumption].
+Qed.
+
 (* ... and before every test of every run of a valid session *)
 Lemma table_empty_in_run ts1 : forall st t ts2 r', good st -> valid_tests (s_reg st) (ts1 ++ t :: ts2) = Some r' ->
   s_tbl (fst (run_tests st ts1)) = [] /\ xtest_ok (s_chain (fst (run_tests st ts1))) t = true.
 Proof.
-  induction ts1 as [|t1 ts1 IH]; intros st t ts2 r' [Hw Ht] Hv; cbn [app valid_tests run_tests] in *.
+  induction ts1 as [|t1 ts1 IH]; intros st t ts2 r' [Hw [Ht Hl]] Hv; cbn [app valid_tests run_tests] in *.
   - cbn [fst]. unfold s_chain. destruct (xtest_ok (r_chain (s_reg st)) t) eqn:Hok; [split; [exact Ht|reflexivity]|discriminate Hv].
-  - destruct (xtest_ok (r_chain (s_reg st)) t1) eqn:Hok; [|discriminate Hv].
+  - destruct (xtest_ok (r_chain (s_reg st)) t1) eqn:Hok; [|discriminate Hv]. cbn [andb] in Hv.
+    destruct (acts_ok (s_reg st) (test_acts (r_chain (s_reg st)) t1)) eqn:Hao; [|discriminate Hv].
     pose proof (run_xtest_ok st t1 Hw Ht Hok) as R. unfold s_chain in R. destruct R as [R1 [R2 _]].
     destruct (run_xtest st t1) as [st1 it]. cbn [fst] in *.
-    rewrite <- R1 in Hv. assert (Hg1 : good st1) by (split; [rewrite R1; apply (wf_acts _ (s_reg st, [])); exact Hw|exact R2]).
+    rewrite <- R1 in Hv.
+    assert (Hg1 : good st1).
+    { split; [rewrite R1; apply (wf_acts _ (s_reg st, [])); exact Hw|]. split; [exact R2|]. rewrite R1. apply linked_acts; assumption. }
     specialize (IH st1 t ts2 r' Hg1 Hv). destruct (run_tests st1 ts1) as [st2 its]. exact IH.
 Qed.
 
@@ -395,7 +419,7 @@ Lemma install_bounded st p : length (s_tbl st) <= max_set -> length (s_tbl (inst
 Proof. intro H. cbn [install s_tbl]. destruct (is_sp p); [cbn; lia|exact H]. Qed.
 Lemma step_bounded st o : length (s_tbl st) <= max_set -> length (s_tbl (fst (step st o))) <= max_set.
 Proof.
-  intro H. destruct o as [n k|n post acts|id|id|n| |t|ts|rep ts]; cbn [step fst]; try (apply do_act_bounded; exact H).
+  intro H. destruct o as [n k|n post acts|id|id|n| |id|t|ts|rep ts]; cbn [step fst]; try (apply do_act_bounded; exact H).
   - apply install_bounded. exact H.
   - pose proof (run_xtest_bounded st t H) as H1. destruct (run_xtest st t) as [st1 it]. exact H1.
   - pose proof (run_tests_bounded ts st H) as H1. destruct (run_tests st ts) as [st1 its]. exact H1.
@@ -525,7 +549,7 @@ Qed.
 Lemma runner_test_valid r t : (forall p, In p (r_chain r) -> is_actor p = false) -> stmt_acts t = [] ->
   forallb stmt_ok (all_stmts (strip t)) = true ->
   let r1 := reg_install r (runner_plugin (r_next r)) in
-  xtest_ok (r_chain r1) t = true /\ fst (tb_acts (r1, []) (test_acts (r_chain r1) t)) = r1.
+  xtest_ok (r_chain r1) t = true /\ fst (tb_acts (r1, []) (test_acts (r_chain r1) t)) = r1 /\ test_acts (r_chain r1) t = [].
 Proof.
   intros Hna Hst Hok r1.
   assert (Hna1 : forall p, In p (r_chain r1) -> is_actor p = false).
@@ -536,8 +560,10 @@ Proof.
     { apply forallb_forall. intros x Hx. rewrite (Hna1 x Hx). reflexivity. }
     rewrite E1. cbn [andb]. apply orb_true_iff. left. unfold sp_stable, all_acts. rewrite Hst, (role_no_actor _ Hna1). cbn [app existsb negb andb].
     rewrite andb_true_r. reflexivity.
-  - unfold test_acts. rewrite !(armed_no_actor _ _ Hna1), (ref_test_acts_nil t Hst).
-    rewrite (armed_no_actor true (rev (r_chain r1))) by (intros p Hp; apply Hna1; apply in_rev; exact Hp). reflexivity.
+  - assert (E : test_acts (r_chain r1) t = []).
+    { unfold test_acts. rewrite !(armed_no_actor _ _ Hna1), (ref_test_acts_nil t Hst).
+      rewrite (armed_no_actor true (rev (r_chain r1))) by (intros p Hp; apply Hna1; apply in_rev; exact Hp). reflexivity. }
+    rewrite E. split; reflexivity.
 Qed.
 
 Lemma runner_tests_valid r ts : (forall p, In p (r_chain r) -> is_actor p = false) ->
@@ -545,8 +571,8 @@ Lemma runner_tests_valid r ts : (forall p, In p (r_chain r) -> is_actor p = fals
   valid_tests (reg_install r (runner_plugin (r_next r))) ts = Some (reg_install r (runner_plugin (r_next r))).
 Proof.
   intros Hna Hts. induction ts as [|t ts IH]; cbn [valid_tests]; [reflexivity|].
-  destruct (Hts t (or_introl eq_refl)) as [H1 H2]. destruct (runner_test_valid r t Hna H1 H2) as [V R]. cbn zeta in V, R.
-  rewrite V, R. apply IH. intros t' Ht'. apply Hts. right. exact Ht'.
+  destruct (Hts t (or_introl eq_refl)) as [H1 H2]. destruct (runner_test_valid r t Hna H1 H2) as [V [R E]]. cbn zeta in V, R, E.
+  rewrite V, R, E. cbn [acts_ok andb]. apply IH. intros t' Ht'. apply Hts. right. exact Ht'.
 Qed.
 
 Lemma in_reps rep ts t : In t (reps rep ts) -> In t ts.
@@ -572,9 +598,9 @@ Lemma runner_restores st t : good st -> (forall p, In p (s_chain st) -> is_actor
 Proof.
   intros Hg Hna Hst Hok st1.
   assert (G1 : good st1) by (apply good_install; [exact Hg|reflexivity|right; exact I]).
-  destruct (runner_test_valid (s_reg st) t Hna Hst Hok) as [V R]. cbn zeta in V, R.
+  destruct (runner_test_valid (s_reg st) t Hna Hst Hok) as [V [R _]]. cbn zeta in V, R.
   change (reg_install (s_reg st) (runner_plugin (r_next (s_reg st)))) with (s_reg st1) in V, R.
-  destruct (run_xtest_ok st1 t (proj1 G1) (proj2 G1) V) as [R1 [R2 [R3 _]]].
+  destruct (run_xtest_ok st1 t (proj1 G1) (proj1 (proj2 G1)) V) as [R1 [R2 [R3 _]]].
   split; [exact R3|]. split; [exact R2|]. rewrite R1. exact R.
 Qed.
 
